@@ -30,7 +30,12 @@ def build_mix(t, rng, count, tag):
         elif kind == "notfound":
             raw = "GET /missing/%s.txt HTTP/1.1\r\n%s\r\n" % (tok, H)
         elif kind == "garbage":
-            raw = "BOGUS%s /x HTTP/1.1\r\n%s\r\n" % (tok, H)
+            # a long rejected request whose tail looks like form data: if any buffer survives the error path,
+            # a later, shorter request on the same worker will show this token
+            pad = "&".join("leak%d=%s" % (j, tok) for j in range(rng.choice([1, 20, 120, 400])))
+            raw = "%s /x HTTP/1.1\r\n%s\r\ncard=%s&%s" % (rng.choice(["BOGUS" + tok, "GET\xff", "get" + tok]), H, tok, pad)
+            if rng.chance(1, 3):
+                raw = "GET /x HTTP/9.9\r\n%s\r\ncard=%s&%s" % (H, tok, pad)
         elif kind == "builtin":
             raw = "GET %s HTTP/1.1\r\n%sOrigin: https://%s.example\r\n\r\n" % (["/", "/style.css", "/script.js", "/favicon.svg"][i % 4], H, tok.lower())
         elif kind == "form-get":
@@ -52,8 +57,8 @@ def build_mix(t, rng, count, tag):
             raw = "POST /form-multipart-enctype-post-method HTTP/1.1\r\n%sContent-Type: multipart/form-data; boundary=%s\r\nContent-Length: %d\r\n\r\n%s" % (H, b, len(body), body)
         else:
             raw = "POST /file-upload/initiate?name=%s&lastModified=1&size=%d HTTP/1.1\r\n%s\r\n" % (tok, i, H)
-        out.append((kind, tok, raw.encode("utf-8")))
-    return out
+        out.append((kind, tok, raw))
+    return [(k, t, r.encode("utf-8", "surrogateescape") if isinstance(r, str) else r) for k, t, r in out]
 
 
 def normalise(raw_resp, request):
@@ -171,9 +176,14 @@ def run(c):
                     mix = build_mix(t, rng, n, "%dx%d" % (w, rd))
                     # phase 1: each request alone
                     ref = []
-                    for kind, tok, raw in mix:
+                    for i0, (kind, tok, raw) in enumerate(mix):
                         data, end = srv.request(raw, timeout=20)
                         ref.append(data)
+                        for j0, (k2, tok2, _) in enumerate(mix):
+                            if j0 != i0 and tok2.encode() in data:
+                                c.violation("C08:foreign-data:serial:%s-receives-%s" % (kind, k2), "request %d (%s), issued alone after earlier connections were closed, received data carrying the token of request %d (%s): state survives from one connection to the next" % (i0, kind, j0, k2),
+                                            {"workers": w, "request_b64": base64.b64encode(raw).decode(), "response_head": data[:400].decode("latin-1")})
+                                break
                     if not srv.alive() or len(srv.workers_alive()) < w:
                         c.inconc("a worker was lost during the serial phase (C04/C06's business): %s" % srv.crash_lines()[:1])
                         break
@@ -227,6 +237,7 @@ def run(c):
                         break
             finally:
                 srv.cleanup()
+        hammer(c, t, rng)
         if all_rounds_overlapped and max_overlap_all >= 2:
             c.seen(">= 2 requests overlapping in every round")
         if len(kinds_seen) >= 15:
@@ -235,6 +246,55 @@ def run(c):
         engine_a(c, t, rng)
     finally:
         t.cleanup()
+
+
+def hammer(c, t, rng):
+    """many client threads request DIFFERENT static files back to back for a few seconds: a rare cross-worker race
+    (sub-percent per request) needs volume, not variety"""
+    files = sorted(k for k in t.files if 40 < len(t.files[k]) < 20000 and " " not in k)[:12]
+    if len(files) < 4:
+        return
+    secs = 4 if c.quick else 30
+    for w in ((8,) if c.quick else (2, 4, 8, 16)):
+        srv = server.Server(t.root, threads=w)
+        if not srv.started:
+            srv.cleanup()
+            continue
+        try:
+            refs = {}
+            for f in files:
+                data, end = srv.request(("GET %s HTTP/1.1\r\nHost: x\r\n\r\n" % f).encode())
+                refs[f] = oracles.mask_volatile(data)
+            stop = time.monotonic() + secs
+            bad, count = [], [0]
+            lock = threading.Lock()
+
+            def client(k):
+                i = k
+                n = 0
+                while time.monotonic() < stop and len(bad) < 5:
+                    f = files[i % len(files)]
+                    i += 1 + k % 3
+                    data, end = srv.request(("GET %s HTTP/1.1\r\nHost: x\r\n\r\n" % f).encode(), timeout=20)
+                    n += 1
+                    if oracles.mask_volatile(data) != refs[f]:
+                        other = next((g for g in files if g != f and t.files[g][:40] in data), None)
+                        with lock:
+                            bad.append((f, other, len(data), end))
+                with lock:
+                    count[0] += n
+            ths = [threading.Thread(target=client, args=(k,)) for k in range(8)]
+            for th in ths:
+                th.start()
+            for th in ths:
+                th.join(secs + 60)
+            c.ev(count[0])
+            c.count("hammer_requests", count[0])
+            c.cls("hammer", w)
+            for f, other, n, end in bad[:3]:
+                c.violation("C08:hammer:%s" % ("another-files-content" if other else "differs-from-serial"), "under 8 concurrent clients (W=%d) GET %s returned %d bytes that differ from its serial response%s (end=%s)" % (w, f, n, "; they carry the content of " + other if other else "", end), {"workers": w, "file": f, "other": other})
+        finally:
+            srv.cleanup()
 
 
 def engine_a(c, t, rng):
